@@ -17,7 +17,9 @@ Proof. exact conservation. Qed.
 Print Assumptions c01_conservation.
 
 (* never handed over twice, never something that was not sent; the instance is the one
-   named by the message's own token ([delivered] is keyed by [mtok]) *)
+   named by the message's own token. In the model [delivered] is one list of message ids: which
+   instance a message is handed to (look-up by [mtok], creation) is not modelled and is checked on
+   the implementation by the harness (per-token instance counts, wrong-instance counter) *)
 Theorem c01_safety : forall rc acts s m,
   run rc init acts = Some s ->
   cnt m (delivered s) + cnt m (dropped s) <= 1 /\ (In m (delivered s) -> In m (sent s)).
